@@ -58,7 +58,7 @@ def readLine (m v tbl evs : String) : String :=
   match parseTable tbl, parseEvs evs with
   | some t, some es =>
     let cfg : Cfg := {
-      mode := ⟨m = "c"⟩, verify := v = "v1",
+      mode := ⟨m = "c"⟩, verify := (v == "v1" || v == "v01"),  -- `v10`: switched on, then off; `v01`: off, then on — the last call decides
       -- the parser sees the frame without its size byte; the table is keyed by whole frames
       parse := fun body => match t.find? (fun kv => kv.1.tail = body) with
         | some kv => parseCls kv.2
